@@ -17,7 +17,8 @@ CONFIG = {
             "app_params_get/app_global_get_ex, asset_holding_get, app_local_get_ex/app_opted_in, app_local_put/del, itxn_field of every "
             "account/asset/app field, whole inner pay/axfer/acfg/afrz/appl (callee versions 7,8,10,13) up to cx.allows, 1..3 box_create/"
             "box_len/box_del and app_box_* operations with sizes around the write budget; references by address / direct id / slot index, "
-            "aimed 60% at things some transaction of the group mentions. Observed on the REAL evaluator with the package's test Ledger: "
+            "aimed 60% at things some transaction of the group mentions. Every 12th draw is a creation-time box scenario: an app-CREATING call (tx.Boxes or tx.Access) mixing app references, box references with Index 0 and Index >= 1 and empty references, probed with one box_create/box_len/box_del on the NEW app's own box for every box name appearing in any reference of the group plus an unnamed one. "
+            "Observed on the REAL evaluator with the package's test Ledger: "
             "class of the availability error (first availability message of the error text) and every LedgerForLogic call the program "
             "made (= what it touched). The model predicts the class; the declarative rule is applied to the touches. First case is the "
             "fixed replay of the recorded deviation. Non-trivial: every case except the pre-sharing/tx.Access rejection; distinct = "
